@@ -383,7 +383,11 @@ def c11_oracle(ops, outs):
                     src_had_row = True
                     if k == "pull" and prev is not None and a.get("src", "").isdigit() and int(a["src"]) < len(prev):
                         src_had_row = rid in prev[int(a["src"])].nodes
-                    if rid not in had_record and k != "settle" and not (k == "pull" and src_had_row):
+                    if n["room"] not in {t["room"] for t in p.ntombs if t["id"] == rid}:
+                        # deletion records are per room: the version shown lives in ANOTHER room than every record the peer
+                        # holds of that row (a row that changed room; not touched by the repair of #18)
+                        sig = "deleted-row-older-version-in-other-room"
+                    elif rid not in had_record and k != "settle" and not (k == "pull" and src_had_row):
                         # the record was stored by this very op, nobody offered the row, and the row is still there
                         sig = "deletion-record-stored-row-kept"
                     elif k in ("pull", "settle"):
